@@ -46,12 +46,13 @@ def seq_history(d, srv, rng, res):
     m = d.model
     c = d.c
     other = srv.client()
+    open_waiters = []
     try:
         for argv in gen.seed_commands(rng):
             d.step(argv, probe=False, cellinfo=False)
         for _ in range(rng.randrange(2, 8)):
             kind = rng.choice(["exec", "exec", "exec", "discard", "nested", "nomulti", "interleaved", "disconnect",
-                               "disconnect-after-exec"])
+                               "disconnect-after-exec", "blocked-waiter", "blocked-waiter"])
             cmds = []
             for _j in range(rng.randrange(0, 7)):
                 a = gen_any(rng, m, 0)
@@ -96,6 +97,25 @@ def seq_history(d, srv, rng, res):
                         for w in wr:
                             m.apply(0, w)
                 continue
+            waiter = None
+            if kind == "blocked-waiter":
+                # a third client parked in a blocking pop on keys the transaction is going to push to:
+                # it must be served after EXEC as a whole, never between two queued commands
+                absent = [k for k in gen.KEYS if m.snapshot_key(0, k)[0] == "none"]
+                if absent:
+                    wkeys = rng.sample(absent, min(len(absent), rng.choice([1, 1, 2])))
+                    wpop = rng.choice([b"BLPOP", b"BRPOP"])
+                    waiter = srv.client(timeout=5)
+                    open_waiters.append(waiter)
+                    waiter.send(wpop, *wkeys, b"0")
+                    server.wait_loops(c, 3)
+                    # make it likely that the transaction feeds the waiter
+                    for wk in wkeys:
+                        if rng.random() < 0.8:
+                            pos = rng.randrange(len(cmds) + 1)
+                            cmds[pos:pos] = [[rng.choice([b"RPUSH", b"LPUSH"]), wk, b"w%d" % rng.randrange(1000), b"w2"],
+                                             rng.choice([[b"LLEN", wk], [b"LRANGE", wk, b"0", b"-1"], [b"LPOP", wk], [b"RPUSH", wk, b"w3"]])]
+                    d.history.append([b"<waiter>", wpop] + wkeys)
             r = c.cmd("MULTI")
             if r != OK:
                 d.diverge("multi-reply", "MULTI -> %s" % resp.show(r))
@@ -144,6 +164,34 @@ def seq_history(d, srv, rng, res):
                     d.diverge("exec-reply/slot/%s" % a[0].upper().decode("latin1"),
                               "transaction %s: slot %d (%s) -> %s, expected %r" % (resp.show(cmds, 30), i, resp.show(a), resp.show(act), exp))
             res.cell(kind, min(len(cmds), 4), "with-runtime-error" if nerr else "clean")
+            if waiter is not None:
+                server.wait_loops(c, 3)
+                ready = [wk for wk in wkeys if m.snapshot_key(0, wk)[0] == "list"]
+                got = waiter.try_recv(2.0 if ready else 0.05)
+                if ready:
+                    # which of several ready keys serves the client is not stated (Redis: the first one
+                    # written; key order is as defensible): any ready key, but the element must be the
+                    # end of that list as EXEC left it
+                    res.cell("blocked-waiter", "served-after-exec", "one-ready" if len(ready) == 1 else "several-ready")
+                    okk = isinstance(got, list) and len(got) == 2 and got[0] in ready
+                    if okk:
+                        lst = m.snapshot_key(0, got[0])[1]
+                        okk = got[1] == (lst[0] if wpop == b"BLPOP" else lst[-1])
+                    if not okk:
+                        waiter.close()
+                        d.diverge("waiter-after-exec/%s" % ("not-served" if got is resp.NOTHING else "wrong-element"),
+                                  "a client blocked in %s %s before the transaction %s must be served after EXEC from the %s of one of %s as EXEC left them, got %s" % (
+                                      wpop.decode(), resp.show(wkeys), resp.show(cmds, 30), "head" if wpop == b"BLPOP" else "tail",
+                                      resp.show([(k, m.snapshot_key(0, k)[1]) for k in ready], 30), resp.show(got)))
+                    m.apply(0, [b"LPOP" if wpop == b"BLPOP" else b"RPOP", got[0]])
+                else:
+                    res.cell("blocked-waiter", "still-blocked")
+                    if got is not resp.NOTHING:
+                        waiter.close()
+                        d.diverge("waiter-after-exec/served-from-nothing", "a client blocked on %s got %s although none of its keys holds a list after %s" % (
+                            resp.show(wkeys), resp.show(got), resp.show(cmds, 30)))
+                waiter.close()
+                server.wait_loops(c, 3)
             # state cleared: the next command executes immediately
             r = c.cmd("PING")
             if r != resp.PONG:
@@ -154,6 +202,18 @@ def seq_history(d, srv, rng, res):
             res.sample([resp.show(x, 40) for x in d.history[-8:]])
     finally:
         other.close()
+        if open_waiters:
+            for w in open_waiters:
+                w.close()
+            try:
+                server.wait_loops(other if not other.closed else srv.client(), 3)
+            except Exception:
+                try:
+                    t = srv.client()
+                    server.wait_loops(t, 3)
+                    t.close()
+                except Exception:
+                    pass
 
 
 def seq_worker(wseed, binary, budget_s):
